@@ -13,7 +13,9 @@ entry_extend("C04", modules=["contracts.c04_ext"],
                       "labels, atol / cutoff, cache, equalize_norms, check_zero, max_bond): only the threading is decided here",
                       "recording receivers: the bodies under contract touch the network only through method calls and "
                       "num_tensors / num_indices / ind_map / iteration, which the recorder logs"],
-             ASSUMPTIONS=["full_simplify round structure (order-kept-until-stable) and TensorNetwork.squeeze are run for "
+             ASSUMPTIONS=["tensor_multifuse / tensor_make_single_bond: bond counts 2..3 and dims in {1,2,3} (kron / fuse are "
+                          "uniform in the dimension; gauge entries symbolic), dense arrays (the block-sparse branch is not run)",
+                          "full_simplify round structure (order-kept-until-stable) and TensorNetwork.squeeze are run for "
                           "count sequences / tensor counts up to 4: the per-pass dispatch and option obligations do not "
                           "depend on them",
                           "option kinds: inplace bool; output_inds None | sequence; equalize_norms False | True | number; "
@@ -27,4 +29,9 @@ entry_extend("C04", modules=["contracts.c04_ext"],
                          "bond (t1 scale * t2 scale == weight removed from the gauge dict, for every weight > 0); "
                          "TensorNetwork.squeeze threads include / exclude; compress_all / _1d / _tree hand max_bond, cutoff "
                          "and the (normalised) gauge settings to _compress_between_tids un-rebound; the normaliser "
-                         "choose_local_compress_gauge_settings passes explicit settings through.")
+                         "choose_local_compress_gauge_settings passes explicit settings through; tensor_multifuse / "
+                         "tensor_make_single_bond on real tiny tensors whose entries encode their own multi-index and sympy "
+                         "gauge entries (bond counts 2..3, dims in {1,2,3}, every subset of gauged bonds, both orders of inds): "
+                         "the fused gauge entry at fused position p is the product of the old gauge entries at the old "
+                         "positions the REAL Tensor.fuse put at p on both tensors; old gauge entries removed, new one added, "
+                         "others untouched.")
